@@ -47,8 +47,9 @@ static bool oracle_ok(uint64_t p, int w) {
   return true;
 }
 
+static thread_local bool g_scalar_only = false;
 #define VEC_LANES(L, EXPR_CALL, REFEXPR, CLS, WHAT)                                                              \
-  { glm::vec<L, T> v; for (int k = 0; k < L; ++k) v[k] = val<T>(lane(x, k, w));                                   \
+  if (!g_scalar_only) { glm::vec<L, T> v; for (int k = 0; k < L; ++k) v[k] = val<T>(lane(x, k, w));                                   \
     auto r = EXPR_CALL;                                                                                           \
     for (int k = 0; k < L; ++k) { uint64_t xl = lane(x, k, w); (void)xl; int64_t want = (int64_t)(REFEXPR);       \
       if ((int64_t)r[k] != want) { o.res((uint64_t)(int64_t)r[k], (uint64_t)k); o.exp((uint64_t)want); o.bad(CLS + L, WHAT " vec overload: wrong component"); return; } } }
@@ -80,7 +81,7 @@ template <typename T> static void op_reverse(const Case& c, Outcome& o) {
   const int w = sizeof(T) * 8; uint64_t x = c.w[0] & wmask(w);
   uint64_t got = pat(glm::bitfieldReverse(val<T>(x))), want = ref_reverse(x, w); o.res(got); o.exp(want); o.cls(x == 0 ? 0 : x == wmask(w) ? 1 : (x >> (w - 1)) ? 3 : 2);
   if (got != want) { o.bad(1, "bitfieldReverse scalar"); return; }
-#define REVL(L) { glm::vec<L, T> v; for (int k = 0; k < L; ++k) v[k] = val<T>(lane(x, k, w)); glm::vec<L, T> r = glm::bitfieldReverse(v); \
+#define REVL(L) if (!g_scalar_only) { glm::vec<L, T> v; for (int k = 0; k < L; ++k) v[k] = val<T>(lane(x, k, w)); glm::vec<L, T> r = glm::bitfieldReverse(v); \
     for (int k = 0; k < L; ++k) if (pat(r[k]) != ref_reverse(lane(x, k, w), w)) { o.res(pat(r[k]), k); o.exp(ref_reverse(lane(x, k, w), w)); o.bad(10 + L, "bitfieldReverse vec overload: wrong component"); return; } }
   REVL(1) REVL(2) REVL(3) REVL(4)
 }
@@ -150,16 +151,22 @@ static std::vector<uint64_t> small_values(int w) {
   return v;
 }
 
+template <void (*F)(const Case&, Outcome&)> static void scalar_only(const Case& c, Outcome& o) { g_scalar_only = true; F(c, o); g_scalar_only = false; }
 template <typename T> static void reg(Engine& E, const char* tn) {
   const int w = sizeof(T) * 8; std::string t = tn;
   Domain all = w <= 16 ? INT_ALL(w) : INT_EDGE(w);
   Domain full32 = w == 32 ? range("INT32_ALL(2^32 patterns)", 0, 1ull << 32, true) : all;
   Domain sm = list("INT" + std::to_string(w) + "_SMALL", small_values(w));
   const std::vector<std::string> zc = {"zero", "all-ones", "other"};
-  { Op& op = E.add("bitCount<" + t + ">", op_bitCount<T>); op.quick = {all}; op.thorough = {full32}; op.classes = zc; }
-  { Op& op = E.add("findLSB<" + t + ">", op_findLSB<T>); op.quick = {all}; op.thorough = {full32}; op.classes = zc; }
-  { Op& op = E.add("findMSB<" + t + ">", op_findMSB<T>); op.quick = {all}; op.thorough = {full32}; op.classes = std::is_signed<T>::value ? std::vector<std::string>{"zero", "all-ones", "non-negative", "negative"} : zc; }
-  { Op& op = E.add("bitfieldReverse<" + t + ">", op_reverse<T>); op.quick = {all}; op.thorough = {full32}; op.classes = {"zero", "all-ones", "top-bit-clear", "top-bit-set"}; }
+  { Op& op = E.add("bitCount<" + t + ">", op_bitCount<T>); op.quick = {all}; op.classes = zc; }
+  { Op& op = E.add("findLSB<" + t + ">", op_findLSB<T>); op.quick = {all}; op.classes = zc; }
+  { Op& op = E.add("findMSB<" + t + ">", op_findMSB<T>); op.quick = {all}; op.classes = std::is_signed<T>::value ? std::vector<std::string>{"zero", "all-ones", "non-negative", "negative"} : zc; }
+  { Op& op = E.add("bitfieldReverse<" + t + ">", op_reverse<T>); op.quick = {all}; op.classes = {"zero", "all-ones", "top-bit-clear", "top-bit-set"}; }
+  if (w == 32) {   // thorough only: the complete 2^32 pattern space through the scalar overloads (the vector overloads are lifted from them and swept on the lattices above)
+    { Op& op = E.add("bitCount<" + t + "> scalar, all 2^32", scalar_only<op_bitCount<T>>); op.thorough = {full32}; }
+    { Op& op = E.add("findLSB<" + t + "> scalar, all 2^32", scalar_only<op_findLSB<T>>); op.thorough = {full32}; }
+    { Op& op = E.add("findMSB<" + t + "> scalar, all 2^32", scalar_only<op_findMSB<T>>); op.thorough = {full32}; }
+    { Op& op = E.add("bitfieldReverse<" + t + "> scalar, all 2^32", scalar_only<op_reverse<T>>); op.thorough = {full32}; } }
   { Op& op = E.add("bitfieldExtract<" + t + ">", op_extract<T>); op.quick = {product(all.name + " x " + OFFBITS(w).name, {all, OFFBITS(w)})};
     op.classes = std::is_signed<T>::value ? std::vector<std::string>{"bits=0", "bits=width", "field", "field-with-sign-extension"} : std::vector<std::string>{"bits=0", "bits=width", "field"}; }
   { Op& op = E.add("bitfieldInsert<" + t + ">", op_insert<T>);
